@@ -606,6 +606,15 @@ func (ev *Env) tryIdent(name string) (T, bool) {
 		if v, ok := ev.fr.lookupLocal(name, ev); ok {
 			return v, true
 		}
+		if alt := ev.vc.P.renamedLocal(ev.fr.fn, name); alt != "" {
+			if v, ok := ev.fr.lookupLocal(alt, ev); ok {
+				if ev.vc.P.renames == nil {
+					ev.vc.P.renames = map[string]bool{}
+				}
+				ev.vc.P.renames[fmt.Sprintf("%s: contract name %q resolved to renamed local %q", ev.fr.name, name, alt)] = true
+				return v, true
+			}
+		}
 	}
 	return T{}, false
 }
@@ -1255,6 +1264,8 @@ func (ev *Env) builtinSpec(name string, argEs []Expr) (T, bool) {
 		vc.decl("pow2f", "(declare-fun pow2f (Int) Int)")
 		vc.decl("pow2f_ax", "(assert (and (= (pow2f 0) 1) (= (pow2f 1) 2) (= (pow2f 2) 4) (= (pow2f 3) 8) (= (pow2f 4) 16) (= (pow2f 8) 256) (= (pow2f 16) 65536) (forall ((k Int)) (! (=> (>= k 0) (and (> (pow2f k) 0) (= (pow2f (+ k 1)) (* 2 (pow2f k))))) :pattern ((pow2f k))))))")
 		return T{fmt.Sprintf("(pow2f %s)", arg(0).S), "Int", intT}, true
+	case "lines":
+		return T{vc.ghostGet(ev.st, "G_lines", arg(0).S), "Int", intT}, true
 	case "written":
 		return T{vc.ghostGet(ev.st, "G_written", arg(0).S), "Int", intT}, true
 	case "consumed":
